@@ -452,7 +452,16 @@ fn check_for_string(src: &str) -> Option<(TokenKind, usize)>
 	if !walker.consume_char('\"')
 		{ return None; }
 		
-	walker.consume_until_char('\"');
+	// The closing quote is the first one that is not
+	// part of an escape sequence (`\"`, and `\\` before a quote)
+	while !walker.ended() && walker.current != '\"'
+	{
+		if walker.current == '\\'
+			{ walker.advance(); }
+
+		if !walker.ended()
+			{ walker.advance(); }
+	}
 		
 	if !walker.consume_char('\"')
 		{ return None; }
